@@ -6,17 +6,22 @@ using namespace cnl;
 using namespace vh;
 static const bool vh_strict_on = (vh::strict = true);
 
-template<class W>
-std::string dec(W const& v)
-{
-    std::ostringstream o;
-    o << v;
-    return o.str();
-}
-
 // storage width of wide_integer<D, N>
 template<class W>
 constexpr int storage_width = cnl::_impl::width<cnl::_impl::rep_of_t<W>>;
+
+template<class W>
+std::string dec(W const& v)
+{
+    if constexpr (storage_width<W> <= 8) {
+        // a char-sized representation would be streamed as a character
+        return std::to_string(int(cnl::_impl::to_rep(v)));
+    } else {
+        std::ostringstream o;
+        o << v;
+        return o.str();
+    }
+}
 
 // boundary lattice of wide_integer<D, N> around its own limits and around the digit count / storage width
 // (OD, OW) of the other operand: 2^k + 5, 2^k - 1, -2^k + 5 for k at and next to each of them
@@ -41,6 +46,16 @@ std::vector<wide_integer<D, N>> lattice(Rng& rng)
             if constexpr (sgn)
                 v.push_back(A{-(A{1} << k) + A{5}});
         }
+    }
+    // the extremes of the storage: all ones (the pattern of -1 in this width) for an unsigned type, the lowest
+    // value of a symmetrical range, -(2^(W-1) - 1), for a signed one (kept printable on trees without the repair of
+    // finding C13.most_negative_integer) -- what a negative operand of the other type must not be confused with
+    if constexpr (W >= 3) {
+        A const q{A{1} << (W - 2)};
+        if constexpr (sgn)
+            v.push_back(A{-q - (q - A{1})});
+        else
+            v.push_back(A{q + (q - A{1}) + q + q});
     }
     // random values of random magnitude, built 32 bits at a time
     int const nrand = 6 * scale_from_env();
